@@ -192,6 +192,8 @@ package retrypolicy
 //@   premise forall i int :: i >= 1 ==> ret(innerFn, i) != nil
 //@   oldlet fa0 := e.failedAttempts
 //@   oldlet ex0 := e.retriesExceeded
+//@   oncall getDelay: sched := callresult
+//@   oncall time.NewTimer: assert [C13.timer_is_the_scheduled_delay] lasttimerdur() == sched
 //@   oncall InitializeRetry: assume sel(1) == 1 ==> ret(exec.InitializeRetry, ncalls(exec.InitializeRetry)) != nil
 //@   loop 0 invariant ncalls(innerFn) >= 0 && ncalls(innerFn) == e.failedAttempts - fa0 && e.failedAttempts <= 1073741824 + ncalls(innerFn)
 //@   loop 0 invariant ncalls(innerFn) > 0 ==> !e.retriesExceeded && (e.maxRetries == -1 || e.failedAttempts <= e.maxRetries)
